@@ -75,6 +75,13 @@ def make_rod(rs, q0=None, u0=None, name="rod"):
             return F @ gen._exp(np.array([tw * xi, 0.0, 0.0]))
 
         Q = Rod.pose_configuration(nel, r, A, xi1=1.0, r_OP0=r0, A_IB0=A0)
+    if rs.get("Q_scales"):
+        # reference configuration whose nodal quaternions are not of unit length (each node scaled differently)
+        Q = np.asarray(Q, dtype=float).copy()
+        n_ = rs["degree"] * nel + 1
+        P_ = Q[3 * n_:].reshape(4, n_)
+        sc_ = np.array((list(rs["Q_scales"]) * n_)[:n_], dtype=float)
+        Q[3 * n_:] = (P_ * sc_[None, :]).reshape(-1)
     mat = (Simo1986 if rs["material"] == "Simo1986" else Harsch2021)(np.array(rs["Ei"]), np.array(rs["Fi"]))
     inert = CrossSectionInertias(A_rho0=rs["A_rho0"], B_I_rho0=np.diag(rs["I_rho0"]))
     rod = Rod(CircularCrossSection(0.05), mat, nel, Q=np.asarray(Q, dtype=float),
